@@ -49,21 +49,28 @@ def run(ctx):
                  'NULL test of the inserted value (NULLs are not counted)')
     n = 0
     for fn in ('eval_agg', 'agg_append'):
-        b = prog.body(EVAL + fn)
-        if not ctx.anchor(R2, EVAL + fn, b is not None):
+        b0 = prog.body(EVAL + fn)
+        if not ctx.anchor(R2, EVAL + fn, b0 is not None):
             continue
-        ctx.functions_analysed.add(b.name)
-        ins = [c for c in b.calls if re.search(r'(Hash|BTree)Set::<.*>::insert$', c.name or '')]
-        for c in ins:
-            n += 1
-            tests = [x.bb for x in b.calls if (x.fn or '').endswith('DataValue::is_null')]
-            guarded = any(b.dominates(t, c.bb) for t in tests)
-            filt = any(re.search(r'Iterator::filter$|nonnull_iter$|Iterator::flatten$|Iterator::filter_map$', x.name or '') for x in b.calls
-                       if b.dominates(x.bb, c.bb))
-            ctx.ob(R2, f'Evaluator::{fn}·distinct-insert', guarded or filt,
-                   f'{b.name}: HashSet::insert at block {c.bb}; dominating NULL tests: {[t for t in tests if b.dominates(t, c.bb)]}; '
-                   f'filtered source: {filt}', [site(b, c.bb)],
-                   what=f'COUNT(DISTINCT x) counts NULL as a value ({fn} inserts every value into the distinct set)')
+        # the state machine itself, and the helpers of the evaluator it calls (`Self::insert_non_null(set, v)` shared by both)
+        where = [b0] + [prog.body(cn) for c in b0.calls for cn in prog.callee_bodies(c) if cn.startswith('executor::evaluator::') and cn != b0.name]
+        seen_b = set()
+        for b in where:
+            if b is None or b.name in seen_b:
+                continue
+            seen_b.add(b.name)
+            ctx.functions_analysed.add(b.name)
+            ins = [c for c in b.calls if re.search(r'(Hash|BTree)Set::<.*>::insert$', c.name or '')]
+            for c in ins:
+                n += 1
+                tests = [x.bb for x in b.calls if (x.fn or '').endswith('DataValue::is_null')]
+                guarded = any(b.dominates(t, c.bb) for t in tests)
+                filt = any(re.search(r'Iterator::filter$|nonnull_iter$|Iterator::flatten$|Iterator::filter_map$', x.name or '') for x in b.calls
+                           if b.dominates(x.bb, c.bb))
+                ctx.ob(R2, f'Evaluator::{fn}·distinct-insert', guarded or filt,
+                       f'{b.name}: HashSet::insert at block {c.bb}; dominating NULL tests: {[t for t in tests if b.dominates(t, c.bb)]}; '
+                       f'filtered source: {filt}', [site(b, c.bb)],
+                       what=f'COUNT(DISTINCT x) counts NULL as a value ({fn} inserts every value into the distinct set)')
     ctx.floor(R2, n, 2, 'insertions into the distinct-value set')
 
     cte_rule(ctx, prog)
